@@ -237,6 +237,17 @@ bool splinetable<Alloc>::read_fits_core(fitsfile* fits, const std::string& fileP
 					std::copy(value,value+valuelen,aux[i][1]);
 					aux[i][1][valuelen-1]='\0';
 				}
+				//a single quote inside a FITS string is stored doubled
+				if(value[0]=='\''){
+					char* out=&aux[i][1][0];
+					for(const char* in=out; ; in++){
+						if(in[0]=='\'' && in[1]=='\'')
+							in++;
+						*out++=*in;
+						if(!*in)
+							break;
+					}
+				}
 				i++;
 			}
 		} else {
